@@ -358,7 +358,9 @@ func runModels(prop, tier, replay string) int {
 		for _, d := range defs {
 			// allOf compositions are outside the strict-mode alphabet: the generator flattens the members into
 			// one struct, for which "undeclared" has no JSON-schema counterpart per member
-			if strings.Contains(d.Chain, "addl-false") && !strings.Contains(d.Chain, "allOf") {
+			// objects with properties and min/maxProperties: the generator keeps their undeclared keys on purpose (it
+			// has to count them), whether that object is "strict" is not pinned by the documentation or the tests
+			if strings.Contains(d.Chain, "addl-false") && !strings.Contains(d.Chain, "allOf") && !strings.Contains(d.Chain, "props+minProps") && !strings.Contains(d.Chain, "props+maxProps") {
 				strictDefs = append(strictDefs, d)
 			}
 		}
